@@ -21,6 +21,7 @@ import (
 	"vt/internal/fx/delta"
 	gammav1 "vt/internal/fx/gamma/v1"
 	lcodec "vt/internal/fx/left/codec"
+	mvmodel "vt/internal/fx/multivendor/model"
 	rcodec "vt/internal/fx/right/codec"
 	"vt/internal/script"
 )
@@ -37,10 +38,11 @@ var fxPaths = map[string]string{
 	"delta": "vt/internal/fx/delta",
 	"left":  "vt/internal/fx/left/codec",
 	"right": "vt/internal/fx/right/codec",
+	"mv":    "vt/internal/fx/multivendor/model",
 }
 
 // fxRep: one type per fixture package (for blank declarations that keep harness-side imports used)
-var fxRep = map[string]string{"alpha": "Int", "beta": "Kind", "gamma": "Level", "delta": "Mixed", "left": "Opt", "right": "Opt"}
+var fxRep = map[string]string{"alpha": "Int", "beta": "Kind", "gamma": "Level", "delta": "Mixed", "left": "Opt", "right": "Opt", "mv": "Item"}
 
 // fxImportedBy: the fixture packages that (transitively) import the key; a type that mentions one of them cannot be written
 // inside the key package (import cycle)
@@ -63,7 +65,7 @@ func ownTargetPossible(own string, mentioned func(pkg string) bool) bool {
 }
 
 // harness-side import aliases used to spell types in probe files
-var fxAlias = map[string]string{"alpha": "hx_alpha", "beta": "hx_beta", "gamma": "hx_gamma", "delta": "hx_delta", "left": "hx_left", "right": "hx_right"}
+var fxAlias = map[string]string{"alpha": "hx_alpha", "beta": "hx_beta", "gamma": "hx_gamma", "delta": "hx_delta", "left": "hx_left", "right": "hx_right", "mv": "hx_mv"}
 
 type fixtures struct {
 	fset  *token.FileSet
@@ -308,6 +310,7 @@ var registry = func() []regEntry {
 		{nm("gamma", "Same"), rtOf[gammav1.Same]()}, {nm("gamma", "Level"), rtOf[gammav1.Level]()}, {nm("gamma", "Status"), rtOf[gammav1.Status]()},
 		{nm("delta", "Mixed"), rtOf[delta.Mixed]()}, {nm("delta", "Either"), rtOf[delta.Either]()},
 		{nm("left", "Opt"), rtOf[lcodec.Opt]()}, {nm("left", "Mode"), rtOf[lcodec.Mode]()}, {nm("right", "Opt"), rtOf[rcodec.Opt]()}, {nm("right", "Level"), rtOf[rcodec.Level]()},
+		{nm("mv", "Item"), rtOf[mvmodel.Item]()}, {nm("mv", "Code"), rtOf[mvmodel.Code]()},
 		// instantiations
 		{inst("alpha", "Box", bs("int")), rtOf[alpha.Box[int]]()},
 		{inst("alpha", "Box", bs("string")), rtOf[alpha.Box[string]]()},
@@ -392,9 +395,9 @@ func (n *tn) toReflect() (rt reflect.Type, ok bool) {
 
 var scalarBasics = []string{"bool", "int", "int8", "int16", "int32", "int64", "uint", "uint8", "uint16", "uint32", "uint64", "uintptr", "float32", "float64", "string", "byte", "rune"}
 var namedScalars = []*tn{nm("alpha", "Bool"), nm("alpha", "Int"), nm("alpha", "Int8"), nm("alpha", "Int64"), nm("alpha", "Uint16"), nm("alpha", "Uintptr"), nm("alpha", "Float32"),
-	nm("alpha", "Float64"), nm("alpha", "String"), nm("alpha", "Rune"), nm("alpha", "Byte"), nm("beta", "Kind"), nm("gamma", "Level"), nm("left", "Mode"), nm("right", "Level")}
+	nm("alpha", "Float64"), nm("alpha", "String"), nm("alpha", "Rune"), nm("alpha", "Byte"), nm("beta", "Kind"), nm("gamma", "Level"), nm("left", "Mode"), nm("right", "Level"), nm("mv", "Code")}
 var namedComposite = []*tn{nm("alpha", "Wide"), nm("alpha", "Strings"), nm("alpha", "IntMap"), nm("alpha", "Arr"), nm("alpha", "Point"), nm("alpha", "Same"), nm("alpha", "Named"), nm("alpha", "Embedded"),
-	nm("beta", "Same"), nm("beta", "Spec"), nm("gamma", "Same"), nm("gamma", "Status"), nm("alpha", "Matrix"), nm("delta", "Mixed"), nm("delta", "Either"), nm("left", "Opt"), nm("right", "Opt")}
+	nm("beta", "Same"), nm("beta", "Spec"), nm("gamma", "Same"), nm("gamma", "Status"), nm("alpha", "Matrix"), nm("delta", "Mixed"), nm("delta", "Either"), nm("left", "Opt"), nm("right", "Opt"), nm("mv", "Item")}
 
 var generics = []struct {
 	pkg, name string
@@ -478,7 +481,7 @@ func genType(t *rapid.T, depth int) *tn {
 		// twin anonymous structs in one expression: same field names and tags, different types only behind a pointer
 		// (anything that keys struct literals by a lossy description of the type confuses them)
 		pointee := func(label string) *tn {
-			return rapid.SampledFrom([]*tn{bs("int"), bs("string"), bs("bool"), nm("alpha", "Point"), nm("beta", "Kind"), nm("gamma", "Status"), nm("left", "Opt"), nm("right", "Opt")}).Draw(t, label)
+			return rapid.SampledFrom([]*tn{bs("int"), bs("string"), bs("bool"), nm("alpha", "Point"), nm("beta", "Kind"), nm("gamma", "Status"), nm("left", "Opt"), nm("right", "Opt"), nm("mv", "Item")}).Draw(t, label)
 		}
 		wrap := rapid.SampledFrom([]string{"ptr", "sliceptr", "mapptr", "ptrptr"}).Draw(t, "twinwrap")
 		mk := func(e *tn) *tn {
